@@ -200,6 +200,19 @@ CLAIMED = {
             'select stand-ins. The server-side sweep (silent client removed after connection_timeout, settings read by the loop) is '
             'decided in C10. Outside: float rounding, wall-clock jumps.',
             'DESIGN.md §6 C12'),
+    'C02': ('With ideal ECDSA and uninterpreted ECDH/HKDF the real _recvServerHello (directly and through a CRC datagram) is run '
+            'against every (root key field, payload, signature) combination an active attacker can assemble - pinned / foreign / garbage '
+            'key field, genuine or attacker-made key-exchange parameters, genuine signature, signature by a foreign key, garbage, '
+            'empty: the client connects or adopts a key only for parameters signed by the pinned key, and otherwise is left '
+            'unconnected with no key, no token, no challenge response and no success callback. The honest three-datagram handshake runs '
+            'through the real code on both sides (real serializers, codec, key derivation calls): both ends hold the same 16-byte key '
+            'term and the same token, the challenge response is sealed under that key, exactly one connect event. Promotion of a temp '
+            'connection is proven equivalent to: CHALLENGE_RESP type, sealed under this connection\'s key, carrying the issued token; '
+            'other pending handshakes untouched; connect at most once.',
+            'Assumed, not shown: hardness of ECDSA/ECDH/HKDF/AES-GCM (ideal models, listed in the evidence); distinct keys have distinct '
+            'encodings. The TOFU mode (no pinned key) is excluded by the statement. Reordering/duplication/loss of handshake datagrams '
+            'at the server gate is part of C10.',
+            'DESIGN.md §6 C02'),
 }
 
 NOT_YET = 'check not built yet in this round (planned: see DESIGN.md §6); not claimed'
